@@ -277,8 +277,19 @@ def signed(case, ctx):
     ctx.check(v["crls"] == (crls or b""), "cms_verify returns CRLs differing from the supplied ones", "cms/verify/crls")
     rnd = random.Random(case["fseed"])
     opener = lambda x: C.verify(l, x)
-    fields = [("content", m.content)] + [("signature#%d" % i, s[1]) for i, s in enumerate(m.signatures())]
+    fields = [("content", m.content)] + [("signature#%d" % i, s[1]) for i, s in enumerate(m.signatures())] + \
+             [("signer-id#%d" % i, s[0].child(1)) for i, s in enumerate(m.signatures())]      # issuerAndSerialNumber of every SignerInfo
     tamper(ctx, "cms/verify", cms, fields, opener, case, rnd, case["full"])
+    # one more SignerInfo that names a certificate the message does not carry (a copy of the last one with another serial number)
+    last = m.signatures()[-1][0]
+    ser = last.child(1).child(1)
+    raw, k = last.raw, last.raw.rfind(ser.raw, 0, len(last.child(0).raw) + len(last.child(1).raw) + 8)
+    alt = bytearray(ser.raw); alt[-1] ^= 0x55
+    bogus = raw[:k] + bytes(alt) + raw[k + len(ser.raw):]
+    grown = D.replace(m.signer_infos, D.tlv(0x31, m.signer_infos.content + bogus))
+    r, res = opener(grown)
+    ctx.case(nontrivial=True, classes=["tamper:bogus-signer-info"], ident=[case, "bogus-si"])
+    ctx.check(r != 1, "cms_verify returns 1 for a message to which a SignerInfo naming an unknown certificate (other serial number) was appended", "cms/verify/bogus-signer-info-accepted")
     empty_signer_infos(ctx, "cms/verify", m, opener, case)
 
 
